@@ -549,7 +549,7 @@ def install_stream_world(W: HttpDispatchWorld, app: Any) -> None:
     H["_write_stream_header"] = write_stream_header
     from vgi_rpc.http.server._state_token import _ResolvedCall
 
-    H[_ResolvedCall] = lambda S, cs, o, i, sid: SObj(None, kind="ResolvedCall", call_state=cs, output_schema=o, input_schema=i, stream_id=sid)
+    H[_ResolvedCall] = lambda S, cs, o, i, sid, created_at=None: SObj(None, kind="ResolvedCall", call_state=cs, output_schema=o, input_schema=i, stream_id=sid, created_at=created_at)
 
     def mint_cursor(S: Any, state: Any, state_info: Any, call_id: Any, key: Any, auth: Any) -> Any:
         """Serialises the service's state object and seals it: returns (token, plaintext) or raises (unserialisable state)."""
@@ -666,7 +666,7 @@ def drive_init(S: Any, judge: bool = True) -> HttpDispatchWorld:
 
     W.user_method(result)
     # sealing the call token: serialises the service's own call state (assumed to succeed, see ASSUMPTIONS)
-    H["_mint_call_token"] = lambda S, *a: (S.opaque("call_token", "Token"), S.opaque("call_id", "Token"), S.opaque("call_plain", "Token"))
+    H["_mint_call_token"] = lambda S, *a, **k: (S.opaque("call_token", "Token"), S.opaque("call_id", "Token"), S.opaque("call_plain", "Token"))
     me = SObj(res._StreamInitResource, _app=app)
     req, _ = W.request()
     resp = W.response()
@@ -741,10 +741,12 @@ def drive_exchange(S: Any, judge: bool = True) -> HttpDispatchWorld:
             http_error_400(S, "State token signature verification failed")
         return (S.opaque("cursor_plain", "Token"), S.opaque("call_id", "Token"))
 
-    def open_call(S: Any, token: Any, key: Any, aad: Any, ttl: Any = 0) -> Any:
+    def open_call(S: Any, token: Any, key: Any, aad: Any, ttl: Any = 0, created_at_out: Any = None) -> Any:
         if W.knob("call_token", ["opens", "rejected"]) == "rejected":
             W.defect("bad_token")
             http_error_400(S, "Call token signature verification failed")
+        if created_at_out is not None:
+            created_at_out.append(S.int("token_created_at"))
         has_state = W.knob("call_token_has_call_state", [False, True])
         return (b"x" if has_state else b"", "T", S.opaque("out_schema_bytes", "Token"), S.opaque("in_schema_bytes", "Token"), S.opaque("token_call_id", "Token"), "stream-1")
 
@@ -951,7 +953,12 @@ class NativeUserError(Exception):
     pass
 
 
+_INVOKED = [0]  # implementation invocation log of the native harness
+
+
 def _behave(key: str) -> None:
+    if key == "impl_outcome":
+        _INVOKED[0] += 1
     k = _BEHAVIOUR.get(key, "returns")
     if k in ("raises_UserError", "raises"):
         raise NativeUserError("raised by the method body")
@@ -1209,6 +1216,7 @@ def _native_probe(client: Any, route: str, inputs: dict[str, Any], kind: str, de
         if body is None:
             return False, why
         defects += d
+    _INVOKED[0] = 0
     resp = client.post("http://test" + path, content=body, headers=headers)
     status = resp.status_code
     hdrs = {k.lower(): v for k, v in dict(resp.headers).items()}
@@ -1229,6 +1237,8 @@ def _native_probe(client: Any, route: str, inputs: dict[str, Any], kind: str, de
             problems.append(f"status {status} is not the table's status for any defect of the request ({sorted(allowed)})")
         if status == 200:
             problems.append("a defective request was dispatched / answered 200")
+        if _INVOKED[0] and route != "exchange":
+            problems.append(f"the service method ran {_INVOKED[0]}x for a request with defects {defects}")
     else:
         if status != 200:
             problems.append(f"a request without defects was answered {status}")
